@@ -809,6 +809,12 @@ class Fn:
             return True
         return any(self.can_exit(c) for c in n.get("inner", []))
 
+    def exits_loop(self, n):
+        """the statement contains a `break` or a `return` (a `break` of a nested loop counts too: guarding is harmless then)"""
+        if n.get("kind") in ("ReturnStmt", "BreakStmt"):
+            return True
+        return any(self.exits_loop(c) for c in n.get("inner", []))
+
     def wrapskip(self, lines, ind):
         if not lines or not (self.has_ret or self.has_brk):
             return lines
@@ -836,6 +842,12 @@ class Fn:
             c, cc, ce = "True", [], []
         bl = self.stmt(body, "        ")
         il = self.stmt(inc, "        ") if inc is not None and inc.get("kind") else []
+        if il and self.exits_loop(body):
+            # C: `break` (and `return`) leave a `for` loop WITHOUT executing its increment expression; `continue` does execute it
+            # (`cnt` has been reset just before).  Only emitted when the body contains a break / return, so that loops without
+            # them keep their text.
+            gc = " ∨ ".join((["s.done"] if self.has_ret else []) + (["s.brk"] if self.has_brk else []))
+            il = ["        %s s : %s.St := if %s then s else" % (self.bind(), self.name, gc)] + ["  " + l for l in il] + ["          s"]
         stop = ""
         if self.has_ret or self.has_brk:
             stop = " ∧ ¬(" + " ∨ ".join((["s.done"] if self.has_ret else []) + (["s.brk"] if self.has_brk else [])) + ")"
